@@ -58,6 +58,22 @@ theorem reachable_consistent (ops : List Op) :
          fun a ha => mm (c.adpPeriod a ha), c.tref,
          u.streamDir, c.fileName, c.blobName, c.keyKid, u.mpsName, u.periodPid, u.adpTrack⟩
 
+/-! ### every media file has its blob file -/
+
+/-- each operation keeps the blob file of every media file on disk (in the
+directory of its stream, under the name its blob row records) -/
+theorem blob_files_step (s : St) (op : Op) (h : Inv s) (hd : DiskOK s) : DiskOK (step s op).1 :=
+  diskOK_step h hd op
+
+/-- in every reachable state every media file has its blob row *and* its blob file -/
+theorem blob_files_reachable (ops : List Op) : DiskOK (exec init ops) := by
+  have key : ∀ (ops : List Op) (s : St), Inv s → DiskOK s → DiskOK (exec s ops) := by
+    intro ops
+    induction ops with
+    | nil => intro s _ hd; exact hd
+    | cons op ops ih => intro s h hd; exact ih _ (inv_step s op h) (blob_files_step s op h hd)
+  exact key ops init inv_init diskOK_init
+
 /-! ### each deletion removes exactly the rows it owns and none it shares -/
 
 /-- **deleting a stream** removes the stream, its media files, their blobs and key
@@ -263,11 +279,47 @@ example : (run init exHistory).map (·.2) =
     [.ok, .ok, .ok, .ok, .ok, .ok, .ok, .ok, .ok, .ok, .ok, .rej, .ok, .ok, .ok] := by decide
 
 example : (exec init exHistory).streams = [⟨1, "alpha", "A", some "va"⟩] ∧
-    (exec init exHistory).files.map (fun f => (f.pk, f.name, f.blob)) = [(1, "va", 1), (3, "aa", 3)] ∧
+    (exec init exHistory).files.map (fun f => (f.pk, f.name, f.blob)) = [(1, "va", 1), (4, "aa", 4)] ∧
     (exec init exHistory).periods.map (fun p => (p.pk, p.pid, p.stream)) = [(1, "p1", 1)] ∧
     (exec init exHistory).adps.map (fun a => (a.pk, a.period, a.track)) = [(1, 1, 1), (2, 1, 2)] ∧
     (exec init exHistory).keys = [] ∧ (exec init exHistory).links = [] := by decide
 
 example : Inv (exec init exHistory) := inv_reachable_init exHistory
+
+/-! ### D15: what the unrepaired code did (negative witnesses, replayed on the real
+application before the `fix:` commits – see known_findings.json) -/
+
+/-- `session.delete(stream)` before commit 25b7f26: no cascade to the periods -/
+def dropStreamOld (s : St) (k : Nat) : St :=
+  let gone := s.files.filter (·.stream == k)
+  { s with streams := s.streams.filter (·.pk != k),
+           files := s.files.filter (·.stream != k),
+           blobs := s.blobs.filter (fun b => !gone.any (·.blob == b.pk)),
+           links := s.links.filter (fun l => !gone.any (·.pk == l.1)) }
+
+/-- `session.delete(mf)` before commit 0b30ad8: the timing reference is kept -/
+def delMediaOld (s : St) (f : MediaFile) : St := dropFile s f
+
+/-- one stream with an indexed timing-reference file, played by one period -/
+def exSmall : St := exec init
+  [ .addStream "alpha" "A", .upload 1 "va" ".mp4" exVideo, .index 1, .editStream 1 "alpha" "A" "va",
+    .addMps "mpsone" "MPS" [⟨none, "p1", 1, 1, [1]⟩] ]
+
+example : Inv exSmall := inv_reachable_init _
+
+/-- deleting the stream left `period.stream_pk` dangling -/
+example : ¬ Inv (dropStreamOld exSmall 1) := by
+  intro h
+  have := h.1.periodStream ⟨1, "p1", 1, 1, 1⟩ (by decide)
+  revert this
+  decide
+
+/-- deleting the timing-reference file left the reference dangling -/
+example : ¬ Inv (delMediaOld exSmall ⟨1, "va", 1, 1, some ⟨1, 0, false⟩, []⟩) := by
+  intro h
+  obtain ⟨f, hf, _, _⟩ := h.1.tref ⟨1, "alpha", "A", some "va"⟩ (by decide) "va" rfl
+  have he : (delMediaOld exSmall ⟨1, "va", 1, 1, some ⟨1, 0, false⟩, []⟩).files = [] := by decide
+  rw [he] at hf
+  cases hf
 
 end DashLive.Store
